@@ -745,14 +745,38 @@ fn build_case(u: &mut U, cmd: Cmd, channel: Channel, forced: Option<(u8, Sources
         }
         p => p,
     };
-    let run = render(cmd, channel, &payload, &phrase, &passphrase, &selector, &sources, salt);
+    // one account case in four gives the same words in another white-space layout (two blanks, a tab, one word
+    // per line, blanks at the ends): the mnemonic is its words (C01, C02), so the account is the same
+    let shown = if cmd.needs_account() && u.ratio(1, 4) {
+        let sep = ["  ", "\t", "\n", " \n", "   "][u.below(5)];
+        let words: Vec<&str> = phrase.split(' ').collect();
+        let k = 1 + u.below(words.len() - 1);
+        let mut t = String::new();
+        if u.bool() {
+            t.push(' ');
+        }
+        for (i, w) in words.iter().enumerate() {
+            if i > 0 {
+                t.push_str(if i == k || u.ratio(1, 3) { sep } else { " " });
+            }
+            t.push_str(w);
+        }
+        if u.bool() {
+            t.push_str([" ", "\n", "  "][u.below(3)]);
+        }
+        t
+    } else {
+        phrase.clone()
+    };
+    let phrase_arg = shown.as_str();
+    let run = render(cmd, channel, &payload, phrase_arg, &passphrase, &selector, &sources, salt);
     let hash_run = cmd.matching_hash().map(|h| {
         let ch = [Channel::File, Channel::Stdin, Channel::File, Channel::Stdin, Channel::DevStdin][u.below(5)];
         render(h, ch, &payload, "", "", &Selector::Default, &sources, salt / 5)
     });
     let twin = (cmd.needs_account() && u.ratio(1, 3)).then(|| {
         let other = flipped(&sources, &passphrase);
-        render(cmd, channel, &payload, &phrase, &passphrase, &selector, &other, salt / 3)
+        render(cmd, channel, &payload, phrase_arg, &passphrase, &selector, &other, salt / 3)
     });
     Case { entropy_hex: hex_lower(&entropy), phrase, passphrase, selector, sources, cmd, channel, payload, run, hash_run, twin }
 }
@@ -1240,7 +1264,7 @@ pub fn run(ctx: &mut Ctx) {
     ctx.rule = "One case = (mnemonic of 12/15/18/21/24 words from uniform or all-0/all-1 entropy) x (passphrase: empty, ASCII incl. leading dash/blank/newline, non-ASCII from an NFKD-sensitive pool or random scalars of 13 Unicode ranges) x (selector: none, --account-index i with i in {0,1,2,2^31-1,2^31-2,<100,uniform 31-bit}, --hd-path of depth 1..8 from the C03/C14 valid-path generator or the default path spelled out, or both selectors) x (each of the four options independently as `--opt V`, `--opt=V`, `-m V` or environment variable MNEMONIC/PASSWORD/ACCOUNT_INDEX/HD_PATH; option order permuted) x (subcommand: address, export, public-key, sign message|transaction|transaction --signature-only|typeddata|raw, hash data|message|transaction|typeddata|typeddata --message-hash) x (payload by file path, `-` = stdin, or the path /dev/stdin) x payload (bytes incl. empty/non-UTF-8/trailing newline/8 KiB..100 KB inputs that exceed one read chunk or pipe buffer; transactions of all kinds from the C06 generator, legacy-without-chain-id signed with --allow-missing-relay-protection; simple EIP-712 documents: one struct of atomic members, at most one nested struct and one array, any of the 31 domains; raw digests from the C05 digest strategy spelled 0x-lower (decided) or bare/upper-case (unspecified)). Oracle: the reference stack end to end (bit-string BIP-39 -> written-out PBKDF2 over NFKD(passphrase) -> BIP-32 on the harness's own secp256k1 -> EIP-55 / 0x secret / 0x04||X||Y; RFC 6979 reference signature over the reference EIP-191 / transaction / EIP-712 digest or the raw digest as given; signed-transaction bytes from the reference RLP model); stdout must be exactly that line plus newline with exit 0. Every `sign message|transaction|typeddata` case also runs the matching `hash` command on the same payload (independent channel), which must print the digest that was signed; `hash data` = Keccak-256 of the bytes; `--message-hash` = reference hashStruct(message). A third of the account cases re-run the configuration with every flag-provided option moved to the environment and vice versa: exit status and stdout must be identical. Both selectors (any flag/env combination): error exit, empty stdout. Before the generated cases an exhaustive matrix runs every account subcommand x selector kind (none/index/path/both) x flag-or-environment for each given option with a non-empty passphrase and index != 0 (288 configurations). Non-trivial: account case with index != 0 or a path or a passphrase or an environment-provided option (distinct by argv+env+stdin), or a hash case with a non-empty payload (distinct by command, channel, payload).".into();
     ctx.assumptions = vec![
         "hmac/sha2/sha3 primitives are correct; NFKD of the passphrase is taken from the unicode-normalization crate (its use by hdwallet is C02's subject)".into(),
-        "the phrase is passed in canonical single-space form (other layouts are C01's subject)".into(),
+        "three account cases in four pass the phrase in canonical single-space form, one in four in another ASCII white-space layout (double blanks, tabs, line ends, blanks at the ends)".into(),
         "transaction and typed-data payloads are well-formed documents without the spellings/graphs of D7-D12 (those are C08/C09/C13's subject)".into(),
         "raw digests >= n: equality with the RFC 6979 reference is not claimed; the printed signature must recover the selected account's key over that digest".into(),
         "a flag and an environment variable for the same option at once (precedence) is not decided by the property and is not generated".into(),
